@@ -95,6 +95,9 @@ def gen_case(tape: Tape, tier: str) -> dict:
     T = tape.int(20, 90, "T") if not close_pair else tape.int(70, 100, "T")
     if large:
         T = min(T, 20 + T % 21)
+    if kind == "usermat":
+        T = 150 + 2 * T  # 190-330 ns: long enough for the *sign* of a coupling to show in the occupations
+        dt = 2.0
     dt = float(tape.choice([1, 2, 3], "dt")) if not close_pair else float(tape.choice([1, 2], "dt"))
     if kind == "slm":
         dt = 1.0  # the mask is a detuning of -10 x the first pulse's amplitude: the largest energy of the scenario
@@ -105,6 +108,8 @@ def gen_case(tape: Tape, tier: str) -> dict:
     if kind == "slm":
         g_amp = round(0.8 + 0.7 * (g_amp % 1.0), 3)  # 0.8 .. 1.5 rad/us while the mask is on (mask detuning <= 15 rad/us)
     g_det = round(tape.float(-3.0, 3.0, "g_det"), 3) if not close_pair else round(tape.float(-1.0, 1.0, "g_det"), 3)
+    if kind == "usermat":
+        g_det = round(math.copysign(2.0 + abs(g_det), g_det if g_det else 1.0), 3)  # |delta| in 2..5: U and -U are told apart
     if kind == "pi":
         # pi pulse on one atom through the local channel, no interaction: the outcome is deterministic
         tgt = tape.int(0, n - 1, "pi_target")
@@ -430,6 +435,10 @@ def run_one(tape: Tape, tier: str, opts: dict) -> dict:
             if case["extra"].get("initial_bits"):
                 b0 = case["extra"]["initial_bits"]
                 over["bits_override"] = "".join(b0[i] for i in ins)
+            if case["cfg"].get("interaction_matrix") is not None:
+                # a user-supplied matrix is indexed by register position: it moves with the atoms
+                m0 = case["cfg"]["interaction_matrix"]
+                over["interaction_matrix"] = [[m0[ins[a]][ins[b]] for b in range(n)] for a in range(n)]
             perm2 = tape.permutation(n, "perm_relabel")
             out2 = run_under(world, case, seeds, perm2, scn=scn2, cfg_over=over)
             evals += 1
